@@ -245,7 +245,9 @@ where
         // Decode how many entries are in this dictionary, and attempt to allocate a map with the necessary capacity.
         let length = decoder.decode_varuint()?;
         let mut map = HashMap::new();
-        map.try_reserve(length)?;
+        // Every entry takes up at least one byte of the buffer, so there's no point in reserving space for more entries
+        // than there are bytes remaining; (and unlike `Vec`, a `HashMap` writes to the memory it reserves).
+        map.try_reserve(core::cmp::min(length, decoder.remaining()))?;
 
         // Decode 'length'-many entries into the map.
         decode_dictionary_entries!(map, decoder, length);
